@@ -307,22 +307,45 @@ Record repo := {
   r_tomb : bool;
   r_id : N;
   r_name : str;
-  r_rc : N;                        (* encodeRawConfig(RawConfig) *)
+  r_rawconfig : list (str * str);  (* RawConfig map (nil = empty; keys unique) *)
   r_meta : list (str * str);       (* Metadata map (nil = empty) *)
 }.
 Record shard := { sh_repos : list repo; sh_langs : list str }.
 
-Definition mem_str (x : str) (l : list str) : bool := existsb (str_eqb x) l.
-Definition mem_N (x : N) (l : list N) : bool := existsb (N.eqb x) l.
-(** Go map[string]bool lookup on the pair-list representation (keys are unique in a Go map) *)
-Definition set_lookup (s : list (str * bool)) (k : str) : bool :=
-  existsb (fun nb => snd nb && str_eqb (fst nb) k) s.
 Fixpoint meta_lookup (m : list (str * str)) (k : str) : option str :=
   match m with
   | [] => None
   | (k', v) :: r => if str_eqb k' k then Some v else meta_lookup r k
   end.
 
+(** index/indexdata.go: encodeRawConfig.  For the i-th of the fields "public", "fork", "archived":
+    bits 2i..2i+1 are rawConfigYes (1) when the map has the value "1" for it, rawConfigNo (2)
+    otherwise (absent, or any other value).  6 bits: the uint8 never overflows.
+    (Field list and constants are compared with the ones extracted from /repo: Generated/C05RawConfig.v,
+    Props/C05.v C05_rawconfig_tables_generated.) *)
+Definition rawConfigYes : N := 1.
+Definition rawConfigNo : N := 2.
+Definition rc_fields : list str :=
+  [ [112;117;98;108;105;99]%N (* public *); [102;111;114;107]%N (* fork *); [97;114;99;104;105;118;101;100]%N (* archived *) ].
+Definition rc_one : str := [49%N].     (* "1" *)
+Fixpoint encode_rc_from (fs : list str) (i : N) (cfg : list (str * str)) : N :=
+  match fs with
+  | [] => 0%N
+  | f :: t =>
+      let e := match meta_lookup cfg f with
+               | Some v => if str_eqb v rc_one then rawConfigYes else rawConfigNo
+               | None => rawConfigNo
+               end in
+      N.lor (N.shiftl e (2 * i)) (encode_rc_from t (i + 1) cfg)
+  end.
+Definition encodeRawConfig (cfg : list (str * str)) : N := encode_rc_from rc_fields 0 cfg.
+Definition r_rc (r : repo) : N := encodeRawConfig (r_rawconfig r).
+
+Definition mem_str (x : str) (l : list str) : bool := existsb (str_eqb x) l.
+Definition mem_N (x : N) (l : list N) : bool := existsb (N.eqb x) l.
+(** Go map[string]bool lookup on the pair-list representation (keys are unique in a Go map) *)
+Definition set_lookup (s : list (str * bool)) (k : str) : bool :=
+  existsb (fun nb => snd nb && str_eqb (fst nb) k) s.
 Section Shard.
   (** the regexp engine (grafana/regexp MatchString) is external: source -> subject -> bool *)
   Variable re_match : str -> str -> bool.
